@@ -9,6 +9,12 @@
 //!   sub 12 rhs | 13 rhs        elementwise | elementwise_with_index with a second view term
 //!   sub 14                     first
 //!   sub 20 rhs                 (l == r, l.similar(r), r == l, r.similar(l), l == materialised l)
+//!   sub 10 a b | 11            map_mut | map_mut_with_index THROUGH the view (mutable family only):
+//!                              run on freshly built views through `TensorView::from(&mut source)`,
+//!                              `TensorView::from(source)` (owned) and a manual loop over
+//!                              `TensorReferenceMutIterator::from(&mut source)`; the three leaf dumps
+//!                              must agree; before dropping, the view must read what the allocating
+//!                              map returned.  Result: (0 (leaf dumps))
 #[path = "../c02/build.rs"]
 #[allow(dead_code, unused_imports, unused_macros)]
 mod vbuild;
@@ -18,8 +24,10 @@ use crate::sx::*;
 use easy_ml::tensors::operations::Similar;
 use easy_ml::tensors::views::{TensorRef, TensorView};
 use easy_ml::tensors::Tensor;
+use easy_ml::tensors::indexing::TensorReferenceMutIterator;
+use easy_ml::tensors::views::TensorMut;
 use vbuild::fam_ref::DynView;
-use vbuild::{build, leaf_ids, AnyView, Arena, E};
+use vbuild::{build, fam_mut, leaf_ids, AnyView, Arena, E};
 
 type Dyn<const D: usize> = Box<dyn TensorRef<E, D>>;
 
@@ -155,12 +163,114 @@ fn binary<const D: usize>(sub: i64, l_src: Dyn<D>, r_src: Dyn<D>) -> Sx {
     }
 }
 
+/// ONE form of the in-place map through a mutable source; Err(code) on an internal mismatch
+fn map_mut_form<const D: usize>(mut src: fam_mut::Dyn<D>, sub: i64, a: i64, b: i64, form: usize) -> Result<(), i64> {
+    let f = move |x: E| (a * x.0 + b, x.1);
+    let fi = |i: [usize; D], x: E| (1000 * x.0 + code(&i), x.1);
+    match form {
+        0 => {
+            let mut view = TensorView::from(&mut src);
+            let expected: Tensor<E, D> = if sub == 10 { view.map(f) } else { view.map_with_index(fi) };
+            if sub == 10 {
+                view.map_mut(f)
+            } else {
+                view.map_mut_with_index(fi)
+            }
+            // in-place == allocating: the view now shows what the allocating map returned
+            if view.map(|x| x) != expected || !(view == expected) {
+                return Err(1350);
+            }
+        }
+        1 => {
+            let mut view = TensorView::from(src);
+            if sub == 10 {
+                view.map_mut(f)
+            } else {
+                view.map_mut_with_index(fi)
+            }
+            drop(view);
+        }
+        _ => {
+            if sub == 10 {
+                for x in TensorReferenceMutIterator::from(&mut src) {
+                    *x = f(x.clone());
+                }
+            } else {
+                for (i, x) in TensorReferenceMutIterator::from(&mut src).with_index() {
+                    *x = fi(i, x.clone());
+                }
+            }
+        }
+    }
+    Ok(())
+}
+
+fn map_mut_through(sub: i64, term: &Sx, rest: &[Sx]) -> Sx {
+    let (a, b) = match (sub, rest.len()) {
+        (10, 2) => match (rest[0].i64(), rest[1].i64()) {
+            (Some(a), Some(b)) => (a, b),
+            _ => return bad_case(),
+        },
+        (11, 0) => (0, 0),
+        _ => return bad_case(),
+    };
+    let mut canonical: Option<Sx> = None;
+    for form in 0..3 {
+        let mut arena = Arena::new();
+        let mut ids = vec![];
+        if !leaf_ids(term, &mut ids) {
+            return bad_case();
+        }
+        let mut sorted = ids.clone();
+        sorted.sort();
+        sorted.dedup();
+        if sorted.len() != ids.len() {
+            return bad_case();
+        }
+        let view = match build(term, &mut arena) {
+            Ok(v) => v,
+            Err(failure) => return failure,
+        };
+        let AnyView::M(m) = view else { return bad_case() }; // entered through `&S`: no mutable face
+        let done = guarded(move || {
+            use fam_mut::DynView as M;
+            match m {
+                M::D0(x) => map_mut_form::<0>(x, sub, a, b, form),
+                M::D1(x) => map_mut_form::<1>(x, sub, a, b, form),
+                M::D2(x) => map_mut_form::<2>(x, sub, a, b, form),
+                M::D3(x) => map_mut_form::<3>(x, sub, a, b, form),
+                M::D4(x) => map_mut_form::<4>(x, sub, a, b, form),
+                M::D5(x) => map_mut_form::<5>(x, sub, a, b, form),
+                M::D6(x) => map_mut_form::<6>(x, sub, a, b, form),
+            }
+        });
+        let result = match done {
+            None => panicked(),
+            Some(Err(c)) => return inconsistent(c),
+            Some(Ok(())) => ok(arena.dump()),
+        };
+        drop(arena);
+        match &canonical {
+            None => canonical = Some(result),
+            Some(c) => {
+                if *c != result {
+                    return inconsistent(1351 + form as i64);
+                }
+            }
+        }
+    }
+    canonical.unwrap()
+}
+
 pub fn run(args: &[Sx]) -> Sx {
     // args = [30, sub, term, ...]
     if args.len() < 3 {
         return bad_case();
     }
     let Some(sub) = args[1].i64() else { return bad_case() };
+    if sub == 10 || sub == 11 {
+        return map_mut_through(sub, &args[2], &args[3..]);
+    }
     let mut arena = Arena::new();
     let left = match build_view(&args[2], &mut arena) {
         Ok(v) => v,
